@@ -242,7 +242,7 @@ func (d *driver) emitTraces(what string, rev int, stfile, cache string) int {
 	calls, err := parseStrace(stfile)
 	if err != nil || len(calls) == 0 {
 		fmt.Fprintf(os.Stderr, "strace unusable (%v, %d calls)\n", err, len(calls))
-		os.Exit(2)
+		d.bail()
 	}
 	groups := d.abstractTrace(calls, cache)
 	var dirs []string
